@@ -3,6 +3,8 @@ use crate::engine::{Stats, SubDyn, Tier};
 
 pub mod common;
 pub mod c01;
+pub mod c02;
+pub mod c03;
 pub mod c04;
 
 pub struct PropDef {
@@ -26,5 +28,5 @@ impl PropDef {
 }
 
 pub fn registry() -> Vec<PropDef> {
-    vec![c01::def(), c04::def()]
+    vec![c01::def(), c02::def(), c03::def(), c04::def()]
 }
